@@ -174,6 +174,27 @@ func c13Want(body string) ([]string, error) {
 	return []string{a, bb}, nil
 }
 
+// c13Form names the syntactic form of an open body as net/url sees it
+// (stable across seeds; used in signatures instead of the corpus class).
+func c13Form(body string) string {
+	u, err := url.Parse(body)
+	switch {
+	case err != nil:
+		return "unparseable"
+	case u.Opaque != "":
+		return "opaque"
+	case u.User != nil:
+		return "userinfo"
+	case u.Scheme != "" && u.Host != "":
+		return "absolute"
+	case u.Host != "":
+		return "scheme-relative"
+	case u.Scheme != "":
+		return "scheme-without-host"
+	}
+	return "path-only"
+}
+
 func c13URL(c c13Case, h http.Handler, dials *c13Dials, b *shimBackend) c13Result {
 	res := c13Result{ID: c.ID}
 	body, _ := base64.StdEncoding.DecodeString(c.B64)
@@ -193,7 +214,8 @@ func c13URL(c c13Case, h http.Handler, dials *c13Dials, b *shimBackend) c13Resul
 		}
 		res.Dials = append(res.Dials, d)
 	}
-	show := shimTrunc(fmt.Sprintf("%q", body), 200)
+	show := shimTrunc(fmt.Sprintf("%q", body), 200) + " [corpus class " + c.Class + "]"
+	form := c13Form(string(body))
 	if a.Panic != "" {
 		res.Violations = append(res.Violations, fmt.Sprintf("C13:panic:%s|open with body %s panicked: %s", shimSlug(a.Panic), show, a.Panic))
 	} else if !a.Answered {
@@ -201,7 +223,7 @@ func c13URL(c c13Case, h http.Handler, dials *c13Dials, b *shimBackend) c13Resul
 	}
 	for _, d := range rawDials {
 		if d != "tcp "+b.addr {
-			res.Violations = append(res.Violations, fmt.Sprintf("C13:dial-foreign:%s|open with body %s (rewriteHost=%v, client Host %q) made the agent dial %q; the configured backend is %q", c.Class, show, c.Rewrite, c.Host, d, b.addr))
+			res.Violations = append(res.Violations, fmt.Sprintf("C13:dial-foreign:%s|open with body %s (rewriteHost=%v, client Host %q) made the agent dial %q; the configured backend is %q", form, show, c.Rewrite, c.Host, d, b.addr))
 		}
 	}
 	want, perr := c13Want(string(body))
@@ -220,21 +242,21 @@ func c13URL(c c13Case, h http.Handler, dials *c13Dials, b *shimBackend) c13Resul
 				}
 			}
 			if !ok {
-				res.Violations = append(res.Violations, fmt.Sprintf("C13:uri-altered:%s|open with body %s: the backend was asked for %q, path and query of the supplied URL are %q", c.Class, show, bc.uri, want))
+				res.Violations = append(res.Violations, fmt.Sprintf("C13:uri-altered:%s|open with body %s: the backend was asked for %q, path and query of the supplied URL are %q", form, show, bc.uri, want))
 			}
 			wantHost := b.addr
 			if c.Rewrite && c.Host != "" {
 				wantHost = c.Host
 			}
 			if bc.host != wantHost {
-				res.Violations = append(res.Violations, fmt.Sprintf("C13:host-altered:%s|open with body %s (rewriteHost=%v, client Host %q): the handshake carried Host %q, expected %q", c.Class, show, c.Rewrite, c.Host, bc.host, wantHost))
+				res.Violations = append(res.Violations, fmt.Sprintf("C13:host-altered:%s|open with body %s (rewriteHost=%v, client Host %q): the handshake carried Host %q, expected %q", form, show, c.Rewrite, c.Host, bc.host, wantHost))
 			}
 			if auth := bc.hdr.Get("Authorization"); auth != "" {
-				res.Violations = append(res.Violations, fmt.Sprintf("C13:credentials-forwarded:%s|open with body %s: the handshake carried Authorization %q that the client request did not", c.Class, show, auth))
+				res.Violations = append(res.Violations, fmt.Sprintf("C13:credentials-forwarded:%s|open with body %s: the handshake carried Authorization %q that the client request did not", form, show, auth))
 			}
 		} else {
 			res.Note = "open answered 200 but the backend has no connection for it"
-			res.Violations = append(res.Violations, fmt.Sprintf("C13:connected-elsewhere:%s|open with body %s answered 200 but the configured backend saw no websocket for it (dials: %v)", c.Class, show, res.Dials))
+			res.Violations = append(res.Violations, fmt.Sprintf("C13:connected-elsewhere:%s|open with body %s answered 200 but the configured backend saw no websocket for it (dials: %v)", form, show, res.Dials))
 		}
 		if r.ID != "" {
 			shimStart(h, nil, "", shimReq("close", nil, shimIDBody(r.ID))).wait(10 * time.Second)
